@@ -123,6 +123,10 @@ class DispatchTrip(VehicleState):
         if request is None:
             # request doesn't exist, doesn't need to be updated
             return None, sim
+        elif request.dispatched_vehicle is not None and request.dispatched_vehicle != self.vehicle_id:
+            # the request has been taken over by another vehicle (dispatched to it after this one, possibly
+            # earlier in this very step): that vehicle's assignment is not ours to release
+            return None, sim
         else:
             updated_request = request.unassign_dispatched_vehicle()
             # todo: possibly log this event here
